@@ -2,6 +2,8 @@ import Proofs.C16Pass
 import Proofs.C16Bound
 import Proofs.C16Decl
 import Proofs.C16Rename
+import Proofs.C16Early
+import Proofs.C16Locals
 /-! Property theorems for C16 — scalar/array typing is sound, exact and independent of declaration order.
 Model: `GoawkModel.C16` (the pass structure of resolve.go with the function order as a parameter); specification:
 `GoawkModel.C16.Sat` / `Consistent` (a total scalar/array typing satisfying every usage constraint exists). -/
@@ -120,6 +122,50 @@ theorem rename_invariant (p : Program) (ρ : Name → Name) (hρ : Renaming ρ) 
     simp only [Program.rename, List.map_eq_nil_iff] at h
     exact hb h
   exact ((resolve_exact (p.rename ρ) o' wf' hb' hc').trans (consistent_rename hρ p)).trans (resolve_exact p o wf hb hc).symm
+
+/-- Why `maxIterations` is taken AFTER the first pass (the cap `passes_bound` is about): with the cap taken before it — parameters and
+ARGV / ENVIRON / FIELDS only, the globals not yet recorded — a consistently typed program (a global - parameter - global chain of
+five links through unused parameters, call sites listed against the direction of type flow) is rejected with "too many iterations",
+while the real cap accepts it and the early cap accepts the same items in reverse order: an order-dependent verdict. -/
+theorem cap_must_count_globals :
+    WF zigAgainst ∧ Covers zigOrder zigAgainst ∧ Consistent zigAgainst ∧
+      (∃ s, resolve zigAgainst zigOrder = .ok s) ∧
+      resolveEarly zigAgainst zigOrder = .error (0, 0, .tooMany) ∧
+      (∃ s, resolveEarly zigAlong zigOrder = .ok s) :=
+  ⟨zigAgainst_wf, zig_covers,
+   (resolve_exact zigAgainst zigOrder zigAgainst_wf (by decide) zig_covers).mp ⟨_, rfl⟩, ⟨_, rfl⟩, rfl, ⟨_, rfl⟩⟩
+
+example : capEarly zigAgainst = 8 ∧ zigAlong.main.reverse.length = zigAgainst.main.length := by decide
+
+/-! ### locals used as arrays: the array-table discipline of `CallUser` (model `GoawkModel.C16.Locals`) -/
+
+open Locals in
+/-- Locals are fresh on every call, however earlier calls were left. Top-level pieces of code (BEGIN, the pattern or action run for
+a record, END — of one run, or of several runs on one Interpreter) are executed one after the other, each continuing with the array
+table its predecessor left, whatever way that one ended (normally, `exit`, `next`, `nextfile`, run-time error, call depth exceeded —
+at any nesting depth). Then every activation of every function starts with all its local arrays empty, and between the pieces the
+table holds exactly the global arrays it held at the start. Unbounded: any functions, any pieces, any fuel. -/
+theorem locals_fresh_after_any_leave (fns : List Fn) (fuel : Nat) (pieces : List (List Stmt)) (globals : Table) :
+    AllFresh (phases fns fuel globals.length pieces ⟨globals, []⟩).1.entries ∧
+      (phases fns fuel globals.length pieces ⟨globals, []⟩).1.tab = globals := by
+  have h := phases_spec fns fuel pieces ⟨globals, []⟩ (fun e he => by cases he)
+  exact ⟨h.2, h.1⟩
+
+open Locals in
+/-- A callee never touches the local arrays of the activations below it, and the table has its old size again when the statement
+list has ended — for every way of ending. -/
+theorem callee_leaves_callers_locals (fns : List Fn) (fuel base : Nat) (stmts : List Stmt) (s : St) (hb : base ≤ s.tab.length)
+    (hf : AllFresh s.entries) :
+    (exec fns fuel base stmts s).1.tab.length = s.tab.length ∧
+      (exec fns fuel base stmts s).1.tab.take base = s.tab.take base :=
+  ⟨(exec_spec fns fuel base stmts s hb hf).1, (exec_spec fns fuel base stmts s hb hf).2.1⟩
+
+/-- non-vacuity: function 0 fills its two local arrays and calls function 1, which fills its array and leaves by `exit`; the next
+piece (END) calls function 0 again: the later entries see empty arrays too; the one global array is untouched -/
+example :
+    (Locals.phases [⟨2, [.fill 0 7, .fill 1 8, .call 1]⟩, ⟨1, [.fill 0 9, .leave .exit]⟩] 50 1
+      [[.call 0], [.call 0]] ⟨[[5]], []⟩) =
+      (⟨[[5]], [[0, 0], [0], [0, 0], [0]]⟩, [.exit, .exit]) := rfl
 
 /-! ### non-vacuity: `function f(a) { a[1] }  BEGIN { f(x) }` with ARGV=1 ENVIRON=2 FIELDS=3 a=4 f=5 x=6 -/
 
